@@ -57,6 +57,9 @@ class RawDomain(tables.DDDomain):
             return 2 ** 64 - 1
         if n.endswith("<impl usize>::BITS"):
             return 64
+        c0 = self.F.consts.get(e.get("did") or "")
+        if c0 is not None and "body" in c0 and str(e.get("did")).startswith(BASE) and "{impl" not in str(e.get("did")):
+            return it.ev(c0["body"], {"$consts": {}, "$fn": e["did"], "$mut": {}})
         if e.get("trait") == BASE + "Status" or n.startswith(BASE + "Status::"):
             c = self.F.consts.get(self.impl + "::" + (e.get("item") or n.rsplit("::", 1)[-1]))
             if c is not None and "body" in c:
@@ -74,6 +77,11 @@ class RawDomain(tables.DDDomain):
             return True
         return False
 
+    def iterate(self, it, src):
+        if isinstance(src, tuple) and src and src[0] == "seq":
+            return src[1]
+        return None
+
     def call_value(self, it, fv, args):
         if isinstance(fv, tuple) and fv and fv[0] == "pyfn":
             return fv[1](*args)
@@ -86,6 +94,10 @@ class RawDomain(tables.DDDomain):
             if fid in self.F.hir:
                 return it.call_fn(fid, [it.ev(a, env) for a in args_e])
         did = f.get("did") or ""
+        if n.endswith("IntoIterator::into_iter"):
+            return [it.ev(a, env) for a in args_e][0]
+        if did.endswith("unreachable_unchecked"):
+            raise Panic("unreachable_unchecked() reached (line %s)" % e.get("ln"))
         if did.endswith("panicking::panic") or did.endswith("panicking::panic_fmt") or did.endswith("assert_failed"):
             raise Panic("assertion failed (line %s)" % e.get("ln"))
         return super().call(it, name, f, args_e, env, e)
@@ -101,6 +113,13 @@ class RawDomain(tables.DDDomain):
                 return recv[i]
             if name == "len":
                 return len(recv)
+            if name in ("iter", "iter_mut"):
+                return ("seq", list(recv))
+        if isinstance(recv, tuple) and recv and recv[0] == "seq":
+            if name == "rev":
+                return ("seq", list(reversed(recv[1])))
+            if name in ("into_iter", "iter"):
+                return recv
         if isinstance(recv, Cell):
             if name in ("assume_init_ref", "assume_init_mut", "assume_init_read"):
                 if recv.v is None:
@@ -214,7 +233,7 @@ def run_for(ctx, F, rule, keys, ty):
     impl = next((r["impl"]["id"] for f, r in F.fns.items() if f.startswith(BASE) and (r.get("impl") or {}).get("trait") == BASE + "Status"
                  and (r.get("impl") or {}).get("self") == ty), None)
     fns = {nm: next((f for f in F.hir if f.startswith(BASE) and f.endswith("::" + nm) and "RawTable<" in F.nice(f)), None)
-           for nm in ("find", "find_or_find_insert_slot", "insert_in_slot_unchecked", "remove_at_slot_unchecked")}
+           for nm in ("find", "find_or_find_insert_slot", "insert_in_slot_unchecked", "remove_at_slot_unchecked", "retain")}
     if not ctx.anchor(rule, "RawTable::find / find_or_find_insert_slot / insert_in_slot_unchecked / remove_at_slot_unchecked, Status for " + ty,
                       impl is not None and all(fns.values())):
         return 0
@@ -293,6 +312,32 @@ def run_for(ctx, F, rule, keys, ty):
                 if not ok:
                     fail("removing %s (slot %d) from %s gives %s %r, table %s (len %r, free %r), expected %s" %
                          (k, w, "".join(slots), st, val, "".join(after), t.len, t.free, "".join(exp)))
+    # is_hash tells entries from FREE / TOMBSTONE (iteration, retain, clone and drop rely on it)
+    ih = impl + "::is_hash"
+    if hashes_ok and ih in F.hir:
+        for label, v, want in [("FREE", free, False), ("TOMBSTONE", tomb, False)] + [("the status of key " + k, status_of(k), True) for k in keys]:
+            n += 1
+            st, val = call(ih, v)
+            if st != "ok" or val is not want:
+                fail("is_hash(%s) yields %s %r, expected %r" % (label, st, val, want))
+    # retain: keeps exactly the entries the predicate accepts, hands every other entry to `drop` once, and leaves a well-formed
+    # table (tombstones may become FREE only where no probe chain runs over them)
+    for slots in states:
+        if budget[0] > 20:
+            break
+        present = [k for k in keys if k in slots]
+        for r in range(len(present) + 1):
+            for keep in itertools.combinations(present, r):
+                n += 1
+                t = build(slots, free, tomb)
+                dropped = []
+                st, val = call(fns["retain"], t, ("pyfn", lambda v, keep=keep: v in keep), ("pyfn", lambda v: dropped.append(v) or ()))
+                after = read_back(t, free, tomb)
+                ok = st == "ok" and all((a == s_) if s_ in keep else (a in "FT") for a, s_ in zip(after, slots)) and well_formed(after) \
+                    and t.len == len(keep) and t.free == after.count("F") and sorted(dropped) == sorted(k for k in present if k not in keep)
+                if not ok:
+                    fail("retain keeping %s of %s gives %s, table %s (len %r, free %r), dropped %r" %
+                         ("".join(keep) or "nothing", "".join(slots), st if st != "ok" else "ok", "".join(after), t.len, t.free, dropped))
     ctx.ob(rule, "%s:%s" % (rule, ty), not fails, "open-addressing table with %s status words (%s): %s" % (ty, F.where(fns["find"]), " || ".join(fails[:3]) if fails else
-           "find / insert-slot / insert / remove meet their specification from all %d well-formed %d-slot states" % (len(states), N)))
+           "find / insert-slot / insert / remove / retain meet their specification from all %d well-formed %d-slot states" % (len(states), N)))
     return n
